@@ -933,6 +933,89 @@ EXTRA_HARNESSES.append(("recint", "c15_recint.C", ()))
 EXTRA_GENERATORS.append(gen_ru_cases)
 
 
+
+# ---------------------------------------------------------------- GFq, Extension, Poly1Dom (alias comparison only)
+POLY_OPS = {
+    "add": (3, [0], [1, 2], None, ""), "sub": (3, [0], [1, 2], None, ""), "mul": (3, [0], [1, 2], None, ""), "stdmul": (3, [0], [1, 2], None, ""),
+    "sqr": (2, [0], [1], None, ""), "div": (3, [0], [1, 2], None, "nz2"), "mod": (3, [0], [1, 2], None, "nz2"),
+    "divmod": (4, [0, 1], [2, 3], None, "nz3"), "gcd": (3, [0], [1, 2], None, "nzall"), "gcd5": (5, [0, 1, 2], [3, 4], None, "nzall"),
+    "lcm": (3, [0], [1, 2], None, "nzall"), "neg": (2, [0], [1], None, ""), "assign": (2, [0], [1], None, ""),
+    "diff": (2, [0], [1], None, ""), "reverse": (2, [0], [1], None, ""), "pow": (2, [0], [1], "pexp", ""),
+    "modpowx": (2, [0], [1], "pdeg", ""),
+    "addin": (2, [0], [0, 1], None, ""), "subin": (2, [0], [0, 1], None, ""), "mulin": (2, [0], [0, 1], None, ""),
+    "divin": (2, [0], [0, 1], None, "nz1"), "modin": (2, [0], [0, 1], None, "nz1"), "negin": (1, [0], [0], None, ""),
+    "axpy": (4, [0], [1, 2, 3], None, ""), "maxpy": (4, [0], [1, 2, 3], None, ""), "axmy": (4, [0], [1, 2, 3], None, ""),
+    "axpyin": (3, [0], [0, 1, 2], None, ""), "maxpyin": (3, [0], [0, 1, 2], None, ""), "axmyin": (3, [0], [0, 1, 2], None, ""),
+    "add.s": (2, [0], [1], "coef", ""), "sub.s": (2, [0], [1], "coef", ""), "mul.s": (2, [0], [1], "coef", ""), "div.s": (2, [0], [1], "coefnz", ""),
+    "axpy.s": (3, [0], [1, 2], "coef", ""), "axmy.s": (3, [0], [1, 2], "coef", ""),
+    "axpyin.s": (2, [0], [0, 1], "coef", ""), "maxpyin.s": (2, [0], [0, 1], "coef", ""), "axmyin.s": (2, [0], [0, 1], "coef", ""),
+}
+POLY_NAMES = {"divmod": "qrab", "gcd5": "duvpq"}
+
+
+def poly_value(rng, p, maxdeg, nz=False):
+    d = rng.choice([-1, 0, 0, 1, 2, 3, maxdeg, rng.range(0, maxdeg)]) if not nz else rng.choice([0, 1, 2, 3, maxdeg, rng.range(0, maxdeg)])
+    if d < 0:
+        return "z"
+    cs = [rng.choice([0, 1, p - 1, rng.range(0, p - 1)]) for _ in range(d)] + [rng.range(1, p - 1)]
+    return ",".join(str(c) for c in cs)
+
+
+def gen_field_cases(rng, exes, quick, cases):
+    reps = 2 if quick else 12
+    # GFq
+    for dom, params in (("gfq32", ["2,1", "2,4", "3,2", "5,3", "7,1", "101,1", "3,9", "251,2"]), ("gfq64", ["2,3", "5,2", "11,3", "1009,1"])):
+        for prm in (params[:4] if quick else params):
+            p, k = [int(t) for t in prm.split(",")]
+            q = p ** k
+            for op, (n, dests, reads) in sorted(RING_OPS.items()):
+                upos = {"div": [2], "inv": [1], "divin": [1], "invin": [0]}.get(op, [])
+                for idx in partitions(n, dests):
+                    for rep in range(reps):
+                        vals = class_values(rng, n, dests, reads, idx, lambda j: rng.choice([0, 1, q - 1, rng.range(0, q - 1), rng.range(0, q - 1)]),
+                                            lambda j: rng.range(0, q - 1))
+                        c = Case("fields", dom, prm, op, n, dests, reads, idx, vals, [], "GFqDom<%s>::%s" % ("int32_t" if dom == "gfq32" else "int64_t", op))
+                        if any(c.vals[j] == 0 for j in upos) or any(c.alias_vals()[j] == 0 for j in upos):
+                            continue
+                        cases.append(c)
+    # Extension<Modular<int32_t>>
+    for prm in (["3,2", "7,3", "2,5"] if quick else ["3,2", "7,3", "2,5", "5,4", "101,2", "13,3", "2,8"]):
+        p, k = [int(t) for t in prm.split(",")]
+        for op, (n, dests, reads) in sorted(RING_OPS.items()):
+            upos = {"div": [2], "inv": [1], "divin": [1], "invin": [0]}.get(op, [])
+            for idx in partitions(n, dests):
+                for rep in range(reps):
+                    vals = class_values(rng, n, dests, reads, idx, lambda j: poly_value(rng, p, k - 1), lambda j: poly_value(rng, p, k - 1))
+                    c = Case("fields", "ext", prm, op, n, dests, reads, idx, vals, [], "Extension<Modular<int32_t>>::" + op)
+                    if any(c.vals[j] == "z" for j in upos) or any(c.alias_vals()[j] == "z" for j in upos):
+                        continue
+                    cases.append(c)
+    # Poly1Dom<Modular<int32_t>,Dense>
+    for p in ([7, 101] if quick else [2, 3, 7, 101, 65521]):
+        for op, (n, dests, reads, sk, tag) in sorted(POLY_OPS.items()):
+            for idx in partitions(n, dests):
+                for rep in range(reps):
+                    x = None
+                    if sk == "pexp":
+                        x = rng.choice([0, 1, 2, 3, 5])
+                    elif sk == "pdeg":
+                        x = rng.choice([1, 2, 3, 5])
+                    elif sk:
+                        x = rng.range(1, p - 1) if sk == "coefnz" or rng.chance(3, 4) else 0
+                    big = rng.chance(1, 6) and op in ("mul", "mulin", "sqr", "axpy", "div", "mod", "divmod")
+                    md = 40 if big else 6
+                    vals = class_values(rng, n, dests, reads, idx, lambda j: poly_value(rng, p, md, nz=(tag == "nzall")), lambda j: poly_value(rng, p, 6))
+                    c = Case("fields", "poly", p, op, n, dests, reads, idx, vals, [x] if sk else [], "Poly1Dom<Modular<int32_t>,Dense>::" + op, POLY_NAMES.get(op))
+                    nzp = {"nz1": 1, "nz2": 2, "nz3": 3}.get(tag)
+                    if nzp is not None and (c.vals[nzp] == "z" or c.alias_vals()[nzp] == "z"):
+                        continue
+                    cases.append(c)
+
+
+EXTRA_HARNESSES.append(("fields", "c15_fields.C", ()))
+EXTRA_GENERATORS.append(gen_field_cases)
+
+
 def main(tier, replay=None):
     chk = vf.Check("C15", tier, "proof")
     rng = vf.Rng(chk.seed)
